@@ -27,7 +27,7 @@ SPEC = dict(
                  "committed by `git commit` by design and are not asserted",
                  "a run is expected to proceed only when no pattern file is dirty (and the tree is clean or "
                  "--allow-dirty is given)"],
-    required=["submodule_cases", "aborts_checked", "proceeds_checked", "pattern_file_dirty_with_allow_dirty", "untracked_unrelated_not_blocking",
+    required=["submodule_cases", "dot_git_is_a_file_cases", "aborts_checked", "proceeds_checked", "pattern_file_dirty_with_allow_dirty", "untracked_unrelated_not_blocking",
               "bump_commit_content_checked"],
     anchors=[("vcs", "assert_not_dirty"), ("cli", "_update")],
     exhaustive={"quick": True, "thorough": True},
@@ -64,6 +64,17 @@ def cases(ctx):
                             yield {"layout": li, "p_status": st if role == "pattern" else "clean",
                                    "u_status": st if role == "unrelated" else "clean", "allow": allow, "rep": rep}
                         k += 1
+            if li in (0, 1):
+                # the same product where `.git` is a FILE: a linked worktree (`git worktree add`) and a repository
+                # created with --separate-git-dir
+                for repo in ("linked-worktree", "separate-git-dir"):
+                    for st in STATUSES:
+                        for role in ROLES:
+                            for allow in (False, True):
+                                if ctx.mine(k):
+                                    yield {"layout": li, "p_status": st if role == "pattern" else "clean", "repo": repo,
+                                           "u_status": st if role == "unrelated" else "clean", "allow": allow, "rep": rep}
+                                k += 1
             for st in SUB_STATUSES:
                 for allow in (False, True):
                     for ps in ("clean", " M"):
@@ -132,8 +143,23 @@ def run_case(ctx, case):
            f'push = false\n\n[bumpver.file_patterns]\n"bumpver.toml" = [\'current_version = "{{version}}"\']\n'
            f'"{lay.get("cfg_spelling", pfile)}" = ["version {{version}}"]\n')
     d = harness.new_dir("g")
+    repo = case.get("repo", "plain")
     try:
-        git(d, "init", "-q", "-b", "main")
+        if repo == "linked-worktree":
+            main = d + ".main"
+            os.makedirs(main)
+            git(main, "init", "-q", "-b", "main")
+            git(main, "commit", "-q", "--allow-empty", "-m", "root")
+            os.rmdir(d)
+            git(main, "worktree", "add", "-q", "-b", "work", d)
+        elif repo == "separate-git-dir":
+            git(d, "init", "-q", "-b", "main", "--separate-git-dir", d + ".gitdir")
+        else:
+            git(d, "init", "-q", "-b", "main")
+        if repo != "plain":
+            if not os.path.isfile(os.path.join(d, ".git")):
+                raise harness.Skip("scenario-not-reproduced:.git-is-not-a-file")
+            ctx.count("dot_git_is_a_file_cases")
         if us.startswith("sub:"):
             # a library repository added as submodule vendor/lib
             lib = d + ".lib"
@@ -206,7 +232,7 @@ def run_case(ctx, case):
         n_after = int(git(d, "rev-list", "--count", "HEAD"))
         desc = {"porcelain_before": porcelain, "argv": args, "pattern_file": pfile, "unrelated_file": ufile,
                 "expected": expect, "res": res.brief(), "porcelain_after": git(d, "status", "--porcelain")}
-        ctx.evaluated((ps, us, allow, expect, case["layout"]), sample={k: desc[k] for k in ("porcelain_before", "argv", "expected")})
+        ctx.evaluated((ps, us, allow, expect, case["layout"], repo), sample={k: desc[k] for k in ("porcelain_before", "argv", "expected")})
         if us.startswith("sub:"):
             ctx.count("submodule_cases")
         if p_dirty and allow:
@@ -241,4 +267,5 @@ def run_case(ctx, case):
             ctx.violation("other:bump_commit_misses_configured_files", f"{names}", case=case, observed=desc)
     finally:
         harness.rm_dir(d)
-        harness.rm_dir(d + ".lib")
+        for suffix in (".lib", ".main", ".gitdir"):
+            harness.rm_dir(d + suffix)
